@@ -13,6 +13,7 @@ EXTENDS OnosV3Props, Json, IOUtils
 CONSTANTS Changes,     \* the change value maps a client may append
           MaxTx, MaxRb, MaxCut, MaxMid, MaxConn, MaxDevStop, MaxFail, MaxSteps,
           FailCodes, OutOfOrderRb,
+          LiveMC,      \* TRUE: a reconcile is a step only if its object is pending in the work sets (wake-up completeness)
           MaxNoop      \* reconciles that have no effect in the specification (a guard makes them wait): legal steps of the real
                        \* system all the same, and the ones a weakened guard turns into effects
 
@@ -24,15 +25,22 @@ Setup == << [k |-> "connect"], [k |-> "rmast"], [k |-> "rcfg"], [k |-> "rcfg"] >
 RECURSIVE ApplyAll(_, _)
 ApplyAll(W, sts) == IF sts = << >> THEN W ELSE ApplyAll(Step(W, Head(sts), "c1"), Tail(sts))
 
-MCInit == /\ w = ApplyAll(InitW, Setup)
+MCInit == /\ w = (IF LiveMC THEN ApplyAll(InitW, Setup) ELSE Strip(ApplyAll(InitW, Setup)))
           /\ hist = << >>
           /\ snap = EmptyFn
           /\ sched = Setup
           /\ bud = [noop |-> MaxNoop, rb |-> MaxRb, cut |-> MaxCut, mid |-> MaxMid, conn |-> MaxConn, stop |-> MaxDevStop, fail |-> MaxFail]
 
+IsPending(st) == CASE st.k = "rtx" -> st.i \in w.q.tx
+                 [] st.k = "rcfg" -> w.q.cfg
+                 [] st.k = "rmast" -> w.q.mast
+                 [] OTHER -> TRUE
+
 Do(st, pick, b2) ==
-    LET W2 == Step(w, st, pick)
+    LET W1 == Step(w, st, pick)
+        W2 == IF LiveMC THEN W1 ELSE Strip(W1)     \* the work sets only matter to the live exploration
     IN  /\ W2 # w
+        /\ LiveMC => IsPending(st)
         /\ Len(sched) < MaxSteps
         /\ w' = W2
         /\ hist' = hist \o Events(w.txs, W2.txs)
@@ -45,6 +53,7 @@ Do(st, pick, b2) ==
 DoNoop(st) ==
     /\ bud.noop > 0
     /\ Len(sched) < MaxSteps
+    /\ ~LiveMC
     /\ Step(w, st, "c1") = w
     /\ \E j \in 1..Len(w.txs) :
           /\ j # st.i
@@ -95,6 +104,9 @@ Inv_ConsistencyApplied == C20_ConsistencyApplied(w, hist)
 Inv_ConsistencyDevice == C20_ConsistencyDevice(w, hist)
 Inv_Terminates == C20_Terminates(w, hist, Stable)
 Inv_SyncCompletes == C20_SyncCompletes(w, hist, Stable)
+\* wake-up completeness: when nothing is pending no reconcile would have an effect (and so, by Inv_Terminates, every
+\* transaction that can terminate has)
+Inv_WakeupsSuffice == (LiveMC /\ QEmpty(w)) => Stable
 Inv_RollbackRestores == C20_RollbackRestores(w, hist, snap)
 Inv_AppliedIsCommitted == C20_AppliedIsCommitted(w, hist, Stable)
 
